@@ -92,11 +92,35 @@ Proof.
     inversion Hs. reflexivity.
 Qed.
 
+(* the reset after an error keeps the unread input *)
+Lemma reset_in v c me :
+  assoc_get (v_ctxs v) 0 = Some c -> c_children c = [] ->
+  v_in (reset_after_error (St v 0 me)) = v_in v.
+Proof.
+  intros Hc Hch. unfold reset_after_error.
+  change (v_ctxs (St v 0 me)) with (v_ctxs v). rewrite Hc, Hch. cbn [fold_left].
+  pose proof (St_get v 0 me) as G. unfold get_mem in G.
+  destruct (assoc_get (v_mems (St v 0 me)) 0) as [m0|] eqn:E; [|discriminate G].
+  rewrite St_St. change (v_ctxs (St v 0 (mReset m0))) with (v_ctxs v). rewrite Hc. reflexivity.
+Qed.
+
+Lemma wof_eq v v' : v_globals v = v_globals v' -> v_out v = v_out v' -> v_in v = v_in v' -> wof v = wof v'.
+Proof. unfold wof. intros -> -> ->. reflexivity. Qed.
+
+(* Run ended with value x, in world W', the machine clean *)
+Definition ran_to_value_w (v : vm) (c : ctx) (m : mem) (s' : cstate) (W' : world) (x : value)
+           (res : vm * run_result) : Prop :=
+  exists v' m', res = (v', RValue x) /\
+    assoc_get (v_mems v') (c_mid c) = Some m' /\ m_sp m' = m_sp m /\ msame (m_sp m) m m' /\
+    wof v' = W' /\
+    (exists c', assoc_get (v_ctxs v') 0 = Some c' /\ c_ip c' = ncs s' /\ c_mid c' = c_mid c /\
+                c_children c' = c_children c).
+
 (* ---- value mode ---- *)
 Theorem bytecode_run_stmt t s s' v c m n G' res :
   wstmt t = true -> wfcs s -> idle v s c m ->
   ByteCode t s = CompOk s' ->
-  ssem n (v_globals v) t = Some (G', res) ->
+  ssem n (wof v) t = Some (G', res) ->
   wfcs s' /\
   exists k, forall fuel,
     ((fuel <= k)%nat -> snd (Run fuel (load_code v s') true) = RFuel \/
@@ -107,7 +131,7 @@ Theorem bytecode_run_stmt t s s' v c m n G' res :
                         end) /\
     ((k < fuel)%nat ->
      match res with
-     | Ok x => ran_to_value v c m s' G' x (Run fuel (load_code v s') true)
+     | Ok x => ran_to_value_w v c m s' G' x (Run fuel (load_code v s') true)
      | Fail err => exists me rep, Run fuel (load_code v s') true
                                   = (reset_after_error (SG (load_code v s') G' (c_mid c) me), RError err rep)
      end).
@@ -146,15 +170,14 @@ Proof.
     pose proof (start_run v s sfin c m Hid fuel true) as Hrun. fold v1 r0 in Hrun. rewrite Hrun.
     split; [intros Hle; left; apply (run_loop_short_next true k v1 r0 _ _ fuel (start_ncs v sfin Wfin) Hs Hle)|intros Hfuel].
     destruct Ho as [[_ [Hsp3 Hx3]]|[[E1 _]|[[E1 _]|[E1 _]]]]; try discriminate E1.
-    unfold ran_to_value.
+    unfold ran_to_value_w.
     rewrite (run_finish v1 r0 k _ _ fuel c m3 x (start_ncs v sfin Wfin) Hs Hfuel).
     + eexists. exists (mdrop m3). conj.
       * reflexivity.
       * cbn [set_mem v_mems set_ctx]. unfold SG, St, set_mem; cbn [v_mems]. rewrite assoc_set_set. apply assoc_get_set_same.
       * unfold mdrop, with_stack; cbn [m_sp]. lia.
       * apply mdrop_msame; [exact Hm3|lia].
-      * reflexivity.
-      * reflexivity.
+      * destruct G'; reflexivity.
       * eexists. conj; [cbn [set_mem v_ctxs set_ctx]; apply assoc_get_set_same| |reflexivity|reflexivity].
         cbn [c_ip]. exact Hi3.
     + rewrite Hi3. reflexivity.
@@ -172,17 +195,17 @@ Proof.
 Qed.
 
 (* ---- file mode: ByteCodeNoStck, Run(false) ---- *)
-Definition ran_to_end (v : vm) (c : ctx) (m : mem) (s' : cstate) (G' : globals) (r : vm * run_result) : Prop :=
+Definition ran_to_end (v : vm) (c : ctx) (m : mem) (s' : cstate) (G' : world) (r : vm * run_result) : Prop :=
   exists v' m', r = (v', RValue VNil) /\
     assoc_get (v_mems v') (c_mid c) = Some m' /\ m_sp m' = m_sp m /\ msame (m_sp m) m m' /\
-    v_globals v' = G' /\ v_out v' = v_out v /\
+    wof v' = G' /\
     (exists c', assoc_get (v_ctxs v') 0 = Some c' /\ c_ip c' = ncs s' /\ c_mid c' = c_mid c /\
                 c_children c' = c_children c).
 
 Theorem bytecode_nostck_run_stmt t s s' v c m n G' res :
   wstmt t = true -> wfcs s -> idle v s c m ->
   ByteCodeNoStck t s = CompOk s' ->
-  ssem n (v_globals v) t = Some (G', res) ->
+  ssem n (wof v) t = Some (G', res) ->
   wfcs s' /\
   exists k, forall fuel, (k < fuel)%nat ->
     match res with
@@ -213,7 +236,7 @@ Proof.
   pose proof (id_sp _ _ _ _ Hid) as Hsp.
   destruct res as [x|err].
   - destruct E as [k [m1 [r1 [Hs [Hm1 [Hc1 [Hi1 Hsp1]]]]]]]. cbn beta iota in Hsp1.
-    set (v2 := set_globals v1 G') in *.
+    set (v2 := set_world v1 G') in *.
     assert (Popped : exists k2 m2 r2, steps false k2 (St v2 (c_mid c) m1) r1 = SNext (St v2 (c_mid c) m2) r2 /\
               msame (m_sp m) m m2 /\ m_sp m2 = m_sp m /\ r_ctx r2 = 0 /\ r_ip r2 = ncs sfin).
     { unfold pop_code, stack_effect in *. destruct (Z.eqb_spec K AddrStck) as [EK|NK].
@@ -242,8 +265,7 @@ Proof.
       * cbn [set_ctx v_mems]. unfold St, set_mem; cbn [v_mems]. apply assoc_get_set_same.
       * exact Hsp2.
       * exact Hm2.
-      * reflexivity.
-      * reflexivity.
+      * unfold v2. destruct G'; reflexivity.
       * eexists. conj; [cbn [v_ctxs set_ctx]; apply assoc_get_set_same| |reflexivity|reflexivity].
         cbn [c_ip]. exact Hi2.
     + rewrite Hi2. reflexivity.
@@ -257,13 +279,13 @@ Qed.
 
 (* ---- the definitional semantics and the compiled code agree, both modes ---- *)
 Theorem statement_compiled_correctly t s s' v c m n env st G' res :
-  wstmt t = true -> wfcs s -> idle v s c m -> s_globals st = v_globals v ->
+  wstmt t = true -> wfcs s -> idle v s c m -> wof_s st = wof v ->
   ByteCode t s = CompOk s' ->
-  ssem n (v_globals v) t = Some (G', res) ->
-  eval n t env st = Done (with_globals st G') (ctl_of res) /\
+  ssem n (wof v) t = Some (G', res) ->
+  eval n t env st = Done (with_world st G') (ctl_of res) /\
   exists k, forall fuel, (k < fuel)%nat ->
     agrees (ctl_of res) (snd (Run fuel (load_code v s') true)) /\
-    match res with Ok _ => v_globals (fst (Run fuel (load_code v s') true)) = G' | Fail _ => True end.
+    match res with Ok _ => wof (fst (Run fuel (load_code v s') true)) = G' | Fail _ => True end.
 Proof.
   intros Hw Hwf Hid Hg HB HM. split.
   - apply eval_stmt; [exact Hw|]. rewrite Hg. exact HM.
@@ -289,17 +311,20 @@ Proof.
   - intros c b Hc _ Hb. cbn [resolve]. unfold rbind. rewrite (resolve_pure c Hc), Hb. reflexivity.
   - intros c a b Hc _ _ Ha Hb. cbn [resolve]. unfold rbind. rewrite (resolve_pure c Hc), Ha, Hb. reflexivity.
   - intros c b Hc _ Hb. cbn [resolve]. unfold rbind. rewrite (resolve_pure c Hc), Hb. reflexivity.
+  - intros e He. cbn [resolve]. unfold rbind. rewrite (resolve_pure e He). reflexivity.
 Qed.
 
-Definition stmt_outcome (mc : machine) (t : node) (G' : globals) (sres : res value) (rest : machine -> Prop) : Prop :=
+(* what running a statement leaves: value or error class as the semantics says, and its world — the global
+   bindings, the output written so far, the input still unread *)
+Definition stmt_outcome (mc : machine) (t : node) (G' : world) (sres : res value) (rest : machine -> Prop) : Prop :=
   let mc' := fst (run_tree false mc t) in
   let r := snd (run_tree false mc t) in
   r = TRefused \/ r = TFuel \/
-  (tree_agrees r sres /\ v_globals (mc_vm mc') = G' /\ v_out (mc_vm mc') = v_out (mc_vm mc) /\ rest mc').
+  (tree_agrees r sres /\ wof (mc_vm mc') = G' /\ rest mc').
 
 Theorem stmt_step t mc c m n G' sres :
   ready mc c m -> wstmt t = true -> wfb t = true ->
-  ssem n (v_globals (mc_vm mc)) t = Some (G', sres) ->
+  ssem n (wof (mc_vm mc)) t = Some (G', sres) ->
   stmt_outcome mc t G' sres (fun mc' => exists c' m', ready mc' c' m').
 Proof.
   intros [[Hwf Hid] [Hmid Hch]] Hw Hb HM. unfold stmt_outcome.
@@ -309,23 +334,27 @@ Proof.
     specialize (R session_fuel). destruct R as [Rle Rgt].
     destruct (Nat.lt_ge_cases k session_fuel) as [Hlt|Hge].
     + specialize (Rgt Hlt). right. right. destruct sres as [x|err].
-      * destruct Rgt as [v' [m' (R & Hm' & Hsp' & Hms & Hg & Ho & [c' [Hc' [Hip' [Hmid' Hch']]]])]]. rewrite R.
+      * destruct Rgt as [v' [m' (R & Hm' & Hsp' & Hms & Hg & [c' [Hc' [Hip' [Hmid' Hch']]]])]]. rewrite R.
         cbn [fst snd mc_vm tree_agrees]. conj; try reflexivity; try assumption.
         exists c', m'. split; [|split; congruence]. split; [exact W|]. cbn [mc_vm mc_cs].
         constructor; try assumption.
         -- rewrite Hmid'. exact Hm'.
         -- destruct Hms as (_&_&_&_&_&B). pose proof (id_sp _ _ _ _ Hid). lia.
       * destruct Rgt as [me [rep R]]. rewrite R. cbn [fst snd mc_vm tree_agrees]. rewrite Hmid.
-        destruct (reset_ready (set_globals (load_code (mc_vm mc) s') G') s' c me W eq_refl (id_ctx _ _ _ _ Hid) Hmid Hch)
+        destruct (reset_ready (set_world (load_code (mc_vm mc) s') G') s' c me W eq_refl (id_ctx _ _ _ _ Hid) Hmid Hch)
           as [c' [m' [Hr [Hg Ho]]]].
-        conj; [reflexivity|exact Hg|exact Ho|]. exists c', m'. exact Hr.
+        pose proof (reset_in (set_world (load_code (mc_vm mc) s') G') c me (id_ctx _ _ _ _ Hid) Hch) as Hin.
+        conj; [reflexivity| |exists c', m'; exact Hr].
+        etransitivity; [exact (wof_eq _ _ Hg Ho Hin)|apply wof_set_world].
     + specialize (Rle Hge). destruct Rle as [F|Rle].
       * right. left. destruct (Run session_fuel (load_code (mc_vm mc) s') true) as [v' rr]. cbn [snd] in *. rewrite F. reflexivity.
       * right. right. destruct sres as [x|err]; [contradiction|].
         destruct Rle as [me [rep R]]. rewrite R. cbn [fst snd mc_vm tree_agrees]. rewrite Hmid.
-        destruct (reset_ready (set_globals (load_code (mc_vm mc) s') G') s' c me W eq_refl (id_ctx _ _ _ _ Hid) Hmid Hch)
+        destruct (reset_ready (set_world (load_code (mc_vm mc) s') G') s' c me W eq_refl (id_ctx _ _ _ _ Hid) Hmid Hch)
           as [c' [m' [Hr [Hg Ho]]]].
-        conj; [reflexivity|exact Hg|exact Ho|]. exists c', m'. exact Hr.
+        pose proof (reset_in (set_world (load_code (mc_vm mc) s') G') c me (id_ctx _ _ _ _ Hid) Hch) as Hin.
+        conj; [reflexivity| |exists c', m'; exact Hr].
+        etransitivity; [exact (wof_eq _ _ Hg Ho Hin)|apply wof_set_world].
   - left. reflexivity.
   - exfalso. destruct (bytecode_never_aborts t (mc_cs mc) Hb) as [NA _].
     + destruct Hwf as [Hn _]. rewrite Hn. unfold zlen. lia.
@@ -334,7 +363,7 @@ Qed.
 
 (* every history: for whatever fuel the semantics defines a statement, the compiled run agrees,
    unless the statement is refused for size or the machine model runs out of its own step budget *)
-Fixpoint sess (mc : machine) (G : globals) (ts : list node) : Prop :=
+Fixpoint sess (mc : machine) (G : world) (ts : list node) : Prop :=
   match ts with
   | [] => True
   | t :: r =>
@@ -344,12 +373,12 @@ Fixpoint sess (mc : machine) (G : globals) (ts : list node) : Prop :=
 
 Theorem stmt_session : forall ts mc c m,
   ready mc c m -> Forall (fun t => wstmt t = true /\ wfb t = true) ts ->
-  sess mc (v_globals (mc_vm mc)) ts.
+  sess mc (wof (mc_vm mc)) ts.
 Proof.
   induction ts as [|t r IH]; intros mc c m Hr Hall; [exact I|].
   inversion Hall as [|t' r' [Hw Hb] Hrest]; subst. cbn [sess]. intros n G' sres HM.
   pose proof (stmt_step t mc c m n G' sres Hr Hw Hb HM) as S. unfold stmt_outcome in *.
-  destruct S as [S|[S|[Ha [Hg [Ho [c' [m' Hr']]]]]]]; [left; exact S|right; left; exact S|].
+  destruct S as [S|[S|[Ha [Hg [c' [m' Hr']]]]]]; [left; exact S|right; left; exact S|].
   right. right. conj; try assumption. rewrite <- Hg. apply (IH _ c' m' Hr' Hrest).
 Qed.
 
@@ -368,5 +397,5 @@ Proof.
   intros Hp H. cbn [ssem] in H |- *. cbn [height] in H.
   destruct (Nat.leb_spec (S (height c)) n) as [Hh|Hh]; [|discriminate H].
   assert (E : Nat.leb (height c) n = true) by (apply Nat.leb_le; lia). rewrite E.
-  rewrite (cond_res_not G c Hp) in H. destruct (cond_res (den G c)) as [[|]|e]; exact H.
+  rewrite (cond_res_not (w_glob G) c Hp) in H. destruct (cond_res (den (w_glob G) c)) as [[|]|e]; exact H.
 Qed.
